@@ -1,0 +1,43 @@
+//go:build verif
+
+package veneers
+
+// Comment-only file: machine-checked contracts for /verif (see /verif/DESIGN.md).
+// There is no code in this file; the build tag keeps it out of every normal build.
+//
+// C17 - add_option / add_assignment describe assignments by a textual path; turning them into IR has to
+// resolve that path against the builder the rule is applied to ("every assignment path ... names an
+// existing chain of fields of the built object with matching types" is then MakePath's own contract).
+// Assignment.AsIR: the path is resolved for the root builder's object with the text as configured; the
+// value is converted for exactly that resolved path; the assignment that comes back carries that path and
+// the configured method.
+//@ func Assignment.AsIR
+//@   property C17
+//@   modifies nothing
+//@   at-call "ast.(*Builder).MakePath" resolved: $arg0.For == root.For && $arg0.Package == root.Package && $arg1 == builders && $arg2 == assignment.Path
+//@   at-call "veneers.AssignmentValue.AsIR" valuepath: $arg0 == assignment.Value && $arg1 == schemas && $arg2 == lastres("ast.(*Builder).MakePath", 0) && lastres("ast.(*Builder).MakePath", 1) == nil
+//@   at-call "veneers.AssignmentValue.AsIR" let p := $arg2
+//@   ensures  path: result.1 == nil ==> result.0.Path == $p && result.0.Method == assignment.Method
+//
+// Option.AsIR: name, comments and arguments as configured, one IR assignment per configured assignment,
+// each converted for the same schemas, builders and root builder.
+//@ func Option.AsIR
+//@   property C17
+//@   modifies nothing
+//@   at-call "veneers.Assignment.AsIR" each: $arg0 == opt.Assignments[$i + 1] && $arg1 == schemas && $arg2 == builders && $arg3 == root
+//@   ensures  fields: result.1 == nil ==> result.0.Name == opt.Name && result.0.Comments == opt.Comments && result.0.Args == opt.Arguments && len(result.0.Assignments) == len(opt.Assignments)
+//@   loop 0:
+//@     invariant count: len(assignments) == $i + 1 && (base(assignments) == 0 || fresh(assignments))
+//
+// The value converters (mutually recursive through envelopes) only build new values.
+//@ func AssignmentValue.AsIR
+//@   property C17
+//@   modifies nothing
+//
+//@ func AssignmentEnvelope.AsIR
+//@   property C17
+//@   modifies nothing
+//
+//@ func EnvelopeFieldValue.AsIR
+//@   property C17
+//@   modifies nothing
